@@ -33,7 +33,7 @@ func TestC10(t *testing.T) {
 	e := LoadEnv("C10")
 	cf := NewCaseFile("C10", "From Cache Require Import Base Backend Spec Jitter Check.", "check_c10")
 	cf.Rule = "per case: config TimeToLive in {default,unlimited,1ns..10y,negative}, ExpirationJitter in {disabled,default 0.1,1e-9,0.1,0.5,1}, " +
-		"1..3 writes with context TTL in {none,1ns,17ns,1s,1h,30d,10y and negatives down to -100y (expiry before 1970)}, a read right after every write whose expiry lies in the past; the jitter draw is predicted by a mirrored seeded math/rand; " +
+		"1..3 writes (3..5 sharing ONE context value in a quarter of the cases) with context TTL in {none,1ns,17ns,1s,1h,30d,10y and negatives down to -100y (expiry before 1970)}, a read right after every write whose expiry lies in the past; the jitter draw is predicted by a mirrored seeded math/rand; " +
 		"expiry observed via Walk; boundary reads at E-1,E,E+1 ns when E lies in the future; 3 backends; " +
 		"non-trivial = jitter drawn and boundary reads done; distinct = distinct Gallina term"
 
@@ -68,6 +68,18 @@ func TestC10(t *testing.T) {
 				jm := NewJitterMirror(seed, conf)
 				ctx := context.Background()
 
+				// one context value carrying a TTL reused for every write of the case (a batch loop): each write
+				// must see the same TTL, the backend must not feed anything back into the caller's context
+				var shared context.Context
+
+				sharedTTL := ctxs[2+e.Rng.Intn(len(ctxs)-2)]
+				if e.Rng.Intn(4) == 0 {
+					shared = cache.WithTTL(ctx, time.Duration(sharedTTL), false)
+					nw += 2
+
+					cf.Count("ctx:shared", 1)
+				}
+
 				for w := 0; w < nw; w++ {
 					time.Sleep(time.Duration(e.Rng.Int63n(int64(time.Hour))))
 
@@ -77,8 +89,10 @@ func TestC10(t *testing.T) {
 					ct := ctxs[e.Rng.Intn(len(ctxs))]
 					c := ctx
 
-					switch e.Rng.Intn(3) {
-					case 0:
+					switch pick := e.Rng.Intn(3); {
+					case shared != nil:
+						c, ct = shared, sharedTTL
+					case pick == 0:
 						// a chain of contexts: deriving a child with its own TTL (updateExisting=false) must leave
 						// the parent's TTL alone, whichever of the two is used for the write
 						pt, qt := ctxs[e.Rng.Intn(len(ctxs))], ctxs[e.Rng.Intn(len(ctxs))]
